@@ -179,6 +179,15 @@ def decide(prop, tier, seed):
         if cov and cov[0] < cov[1] and r["status"] == "success":
             undecided.append("kani harness %s: only %d of %d cover points reachable (vacuity guard)" % (h.name, cov[0], cov[1]))
             continue
+        if h.expect == "panic":
+            # #[kani::should_panic]: SUCCESSFUL iff the call panics (and nothing else fails)
+            oid = "kani:%s:[documented-panic]" % h.name
+            ok = r["status"] == "success"
+            obligations[oid] = {"engine": "kani/cbmc", "status": "discharged" if ok else "failed", "harness": h.name}
+            if not ok:
+                failures.append({"oid": oid, "engine": "kani", "output": "should_panic harness %s did not panic as documented (or failed otherwise): %s" % (h.name, "; ".join(fc["description"] for fc in r.get("failed_checks", []))[:600]), "harness": h.name})
+            kani_info.append({"harness": h.name, "kind": h.kind, "bound": h.bound, "status": r["status"], "time_s": r.get("time_s"), "checks": r.get("checks"), "covers": r.get("covers"), "stubs": r.get("stubs")})
+            continue
         if h.expect == "fail":
             # vacuity canary harness: must fail
             if r["status"] != "failed":
